@@ -131,6 +131,12 @@ theorem operations_take_their_lock :
         | some (LEv.lock l :: LEv.deferUnlock l' :: _) => l == (n!"diskOperationLock") && l' == l
         | _ => false)) = true := by decide
 
+/-- the index store is opened with a single connection in every build variant, so statements
+    issued outside the filesystem lock (the pre-lock probes above, the streaming goroutine) are
+    serialised by the connection pool instead of failing with "database is locked" -/
+theorem single_sqlite_connection :
+    sqliteMaxOpenConns.length = 2 ∧ sqliteMaxOpenConns.all (fun x => x.2 == 1) = true := by decide
+
 /-- non-vacuity of (b): two threads, two calls, a concrete reachable state with both completed -/
 example : ∃ s, Reach (stfsImpl {}) ({}, none) s ∧ s.lin.length = 1 := by
   let op : Env × Call := ({}, .stat (n!"/"))
